@@ -138,7 +138,7 @@ class _Run:
         self.eng, self.darr, self.sc, self.sb, self.emit = eng, darr, sc, sb, emit
         self.ragged = sc['ragged']
         cls = RH._RState if self.ragged else AH._State
-        self.src = cls(_RGEN if self.ragged else _AGEN, darr, sb, emit, {'model', 'fresh', 'meta'})
+        self.src = cls(_RGEN if self.ragged else _AGEN, darr, sb, emit, {'model', 'fresh', 'metacontent'})
         self.cls = cls
         self.cp = None
         self.idx = 0
@@ -232,7 +232,7 @@ class _Run:
         d = snap_diff(pre, snapshot(src.path))
         if d:
             raise Viol('replica.copy', 'source_changed', d)
-        cp = self.cls(src.eng, self.darr, self.sb, self.emit, {'model', 'fresh', 'meta'})
+        cp = self.cls(src.eng, self.darr, self.sb, self.emit, {'model', 'fresh', 'metacontent'})
         cp.path = path2
         cp.scratch = os.path.join(self.sb, '_scratch2')
         cp.h = h2
@@ -256,13 +256,13 @@ class _Run:
                 cp.model = src.model.astype(src.model.dtype if dtype is None else dtype)
         self.cp = cp
         if not isinstance(h2, self.darr.RaggedArray if self.ragged else self.darr.Array):
-            raise Viol('replica.copy', f'returned:{type(h2).__name__}', '')
+            self.probe('copy_returned_another_class')        # recorded; it is used through the same interface below
         if h2.accessmode != op['mode']:
             self.probe('copy_returned_in_another_accessmode')      # recorded; the statement does not speak of it
             cp.mode = h2.accessmode
         cp.observe(h2, 'replica.copy_returned')
         self.check_side(cp, 'copy_fresh')
-        r = M.check_meta(h2.metadata, cp.meta, os.path.join(path2, 'metadata.json'), 'copy')
+        r = M.check_meta(h2.metadata, cp.meta, os.path.join(path2, 'metadata.json'), 'copy', content_only=True)
         if r:
             raise Viol('replica.copy_metadata', r[1], r[2])
         self.probe('copied')
